@@ -452,11 +452,18 @@ func (m *Machine) runFrame(fr *frame) {
 	}()
 	for {
 		nonPhis := m.executePhis(fr)
+		tolerant := isPackageInit(fr.fn)
 		for _, instr := range nonPhis {
 			if m.trace {
 				m.traceInstr(fr, instr)
 			}
-			if m.visitInstr(fr, instr) == kReturn {
+			var k continuation
+			if tolerant {
+				k = m.visitInitInstr(fr, instr)
+			} else {
+				k = m.visitInstr(fr, instr)
+			}
+			if k == kReturn {
 				return
 			}
 		}
@@ -598,4 +605,46 @@ func (m *Machine) ensureInit(pkg *ssa.Package) {
 
 func isPackageInit(fn *ssa.Function) bool {
 	return fn.Synthetic == "package initializer"
+}
+
+// poison is the value of a package-level initializer the engine could not
+// execute (e.g. it builds an arena skiplist). It may be stored into its global;
+// any later use of it is an engine error, so a harness that depends on such a
+// global is reported inconclusive instead of running on a wrong value.
+type poison struct{ why string }
+
+// visitInitInstr executes one instruction of a package initializer; an engine
+// error inside it poisons the instruction's value instead of ending the path.
+func (m *Machine) visitInitInstr(fr *frame, instr ssa.Instruction) (k continuation) {
+	defer func() {
+		r := recover()
+		if r == nil {
+			return
+		}
+		var why string
+		switch r := r.(type) {
+		case engineErr:
+			why = r.msg
+		case *targetPanic:
+			why = "panic: " + r.msg
+		default:
+			if re, ok := r.(runtime.Error); ok {
+				why = "internal: " + re.Error()
+			} else {
+				panic(r)
+			}
+		}
+		switch instr.(type) {
+		case *ssa.If, *ssa.Jump, *ssa.Return, *ssa.Panic:
+			panic(engineErr{"package initializer control flow depends on a value the engine could not compute: " + why})
+		}
+		if v, ok := instr.(ssa.Value); ok {
+			fr.env[v] = poison{why}
+		}
+		m.hr.mu.Lock()
+		m.hr.skippedInit[fr.fn.Pkg.Pkg.Path()+": "+why]++
+		m.hr.mu.Unlock()
+		k = kNext
+	}()
+	return m.visitInstr(fr, instr)
 }
